@@ -305,3 +305,23 @@ package floatingip
 //@   ensures [C05] synced(ci)
 //@   ensures [C04:reserve-store-only-own-key] StoreDom == old(StoreDom) && forall k string :: !(old(StoreDom[k]) && old(StoreKey[k]) == oldK) ==> storeSameAt(k)
 //@   modifies FloatingIP.Key, FloatingIP.Policy, FloatingIP.UpdatedAt, FloatingIP.NodeName, FloatingIP.PodUid, fresh FloatingIP.IP, fresh FloatingIP.pool, fresh FloatingIP.Labels, StoreKey, StorePolicy, StoreNode, StoreUid, faults
+
+// ---- toFloatingIPInfo: address, mask, gateway, VLAN of the entry's pool (C06, C13) ----
+//@ func [C06,C13,C02] (*crdIpam).toFloatingIPInfo
+//@   requires fip != nil && fip.pool != nil
+//@   ensures [C06,C13:info-copies-entry-and-pool] result != nil && fresh(result) && result.FloatingIP.Key == fip.Key && result.FloatingIP.PodUid == fip.PodUid && result.FloatingIP.NodeName == fip.NodeName && result.FloatingIP.Policy == fip.Policy && result.FloatingIP.IP == fip.IP && result.IPInfo.IP != nil && result.IPInfo.IP.IP == fip.IP && result.IPInfo.IP.Mask == fip.pool.Mask && result.IPInfo.Vlan == fip.pool.Vlan && result.IPInfo.Gateway == fip.pool.Gateway
+//@   modifies fresh FloatingIPInfo.*, fresh nets.IPNet.*, fresh mapsof(map[string]sets.Empty), fresh elemsof(string)
+
+// ---- ByKeyAndIPRanges: every reported entry is allocated under the key ----
+//@ pure infoOfKey(ci *crdIpam, info *FloatingIPInfo, key string) bool = info.FloatingIP.Key == key && ipstr(info.FloatingIP.IP) in ci.allocatedFIPs && ci.allocatedFIPs[ipstr(info.FloatingIP.IP)].Key == key && info.FloatingIP.PodUid == ci.allocatedFIPs[ipstr(info.FloatingIP.IP)].PodUid && info.FloatingIP.NodeName == ci.allocatedFIPs[ipstr(info.FloatingIP.IP)].NodeName && info.IPInfo.IP != nil && info.IPInfo.IP.IP == info.FloatingIP.IP
+//@ func [C02,C08,C04] (*crdIpam).ByKeyAndIPRanges
+//@   requires inv(ci) && synced(ci) && held[ptr(ci.cacheLock)] == 0
+//@   requires forall i int, r int {ipranges[i][r]} :: 0 <= i && i < len(ipranges) && 0 <= r && r < len(ipranges[i]) ==> nets.wfRange(ipranges[i][r])
+//@   ensures [C02,C04:bykey-only-own-entries] result1 == nil && forall j int :: 0 <= j && j < len(result0) ==> result0[j] == nil || (fresh(result0[j]) && infoOfKey(ci, result0[j], key))
+//@   ensures [C08:bykey-one-slot-per-range] len(ipranges) != 0 ==> len(result0) == len(ipranges)
+//@   ensures [C02:bykey-all-nonnil-without-ranges] len(ipranges) == 0 ==> forall j int :: 0 <= j && j < len(result0) ==> result0[j] != nil
+//@   ensures result0 == nil || fresh(result0)
+//@   modifies fresh FloatingIPInfo.*, fresh nets.IPNet.*, fresh mapsof(map[string]sets.Empty), fresh elemsof(string), fresh elemsof(*FloatingIPInfo), fresh elemsof(byte)
+//@   loop 0,call:walkIPRanges#0/0,call:walkIPRanges#0/1 invariant sameElems(ipinfos) && ipinfos != nil && fresh(ipinfos) && len(ipinfos) == len(ipranges) && forall j int :: 0 <= j && j < len(ipinfos) ==> ipinfos[j] == nil || (fresh(ipinfos[j]) && infoOfKey(ci, ipinfos[j], key))
+//@   loop call:walkIPRanges#0/0,call:walkIPRanges#0/1 invariant 0 <= outer_idx && outer_idx < len(ipranges) && i == outer_idx
+//@   loop 1 invariant sameElems(ipinfos) && (ipinfos == nil || fresh(ipinfos)) && forall j int :: 0 <= j && j < len(ipinfos) ==> ipinfos[j] != nil && fresh(ipinfos[j]) && infoOfKey(ci, ipinfos[j], key)
